@@ -1,8 +1,11 @@
 """C13 — builds are reproducible and the build cache never serves stale code.
 
 Lean: LlgoVerif/Model/Cache.lean, Lemmas/Cache.lean, Props/C13.lean (cache_sound by induction over histories under
-KeyCovers; KeyCovers is false for the transcribed key: four kernel-checked counterexamples; keyCovers_partial under
-four explicit hypotheses; emission order independence).
+KeyCovers; the model mirrors two variants of the fingerprint code (Cfg: content hashes in file digests, CCFLAGS/CFLAGS/
+LDFLAGS among the env inputs); KeyCovers is false for both (side files, embed files; for Cfg.legacy also same-size edits
+and the compiler environment): kernel-checked counterexamples; keyCovers_partial (legacy, four hypotheses),
+keyCovers_partial_fixed / cache_sound_fixed (two hypotheses); emission order independence).
+The check probes which variant the working tree has (probe_variant) and drives modeld_c13 with it.
 
 Tie B-O: harness/c13 runs the REAL collectFingerprint (overlay accessor in internal/build) on synthetic package
 records; its decoded manifest is compared field by field with the model's `key`, and the collision relation of the
@@ -391,7 +394,34 @@ def parse_key_answer(line):
     return [t.split("!") for t in line.split()[1:]]
 
 
-def correspondence(ctx, harness, modeld, hello, n_bases, n_mut):
+def model_lines_run(modeld, cfg, lines):
+    """run the Lean driver on `lines` under the fingerprint variant cfg = (contentHash, ccflagsEnv)"""
+    ans, rc, err = run_lines([modeld], ["cfg %d %d" % (int(cfg[0]), int(cfg[1]))] + lines)
+    if len(ans) != len(lines) + 1 or ans[0] != "ok":
+        raise RuntimeError("modeld_c13 died or rejected cfg: %s %s" % (ans[:1], err[-2000:]))
+    return ans[1:]
+
+
+def probe_variant(harness, hello):
+    """which variant of the fingerprint code does the working tree have?  Asked of the real collectFingerprint:
+    (1) same path, size and mtime, different content; (2) CCFLAGS environment changed."""
+    g = default_G(hello)
+    mt = 1_700_000_000_000_000_000
+    p1, p2 = default_P("m/a"), default_P("m/a")
+    p1["gofiles"] = [F("a/a.go", b"1", mt)]
+    p2["gofiles"] = [F("a/a.go", b"5", mt)]
+    g1, g2 = copy.deepcopy(g), copy.deepcopy(g)
+    g1["env"] = {"CCFLAGS": "-DK=1"}
+    g2["env"] = {"CCFLAGS": "-DK=2"}
+    lines = ["key " + enc_prog(g, [p1], False), "key " + enc_prog(g, [p2], False), "key " + enc_prog(g1, [p1], False), "key " + enc_prog(g2, [p1], False)]
+    out, rc, err = run_lines([harness], lines)
+    fps = [parse_key_answer(o) for o in out]
+    if len(out) != 4 or any(f is None for f in fps):
+        raise HarnessBuildError("variant probe failed: %s %s" % (out, err[-1000:]))
+    return (fps[0][0][1] != fps[1][0][1], fps[2][0][1] != fps[3][0][1])
+
+
+def correspondence(ctx, harness, modeld, hello, n_bases, n_mut, cfg):
     rng = ctx.rng
     reqs = []        # (tag, g, pkgs)
     for b in range(n_bases):
@@ -404,9 +434,9 @@ def correspondence(ctx, harness, modeld, hello, n_bases, n_mut):
     model_lines = ["key " + enc_prog(g, pkgs, True) for (_, _, g, pkgs) in reqs]
     rel_lines = ["rel " + enc_prog(g, pkgs, True) for (_, _, g, pkgs) in reqs]
     real, rc, err = run_lines([harness], real_lines)
-    model, rc2, err2 = run_lines([modeld], model_lines + rel_lines)
-    if len(real) != len(real_lines) or len(model) != 2 * len(model_lines):
-        raise RuntimeError("harness/driver died: real %d/%d model %d/%d\n%s\n%s" % (len(real), len(real_lines), len(model), 2 * len(model_lines), err[-2000:], err2[-2000:]))
+    model = model_lines_run(modeld, cfg, model_lines + rel_lines)
+    if len(real) != len(real_lines):
+        raise RuntimeError("harness died: real %d/%d\n%s" % (len(real), len(real_lines), err[-2000:]))
     rels = model[len(model_lines):]
     model = model[:len(model_lines)]
     stats = {"requests": len(reqs), "field_mismatch": 0, "real_coarser": 0, "real_finer": 0, "pairs": 0, "pairs_collide_both": 0,
@@ -724,7 +754,7 @@ def out_lines(stderr):
     return [l for l in stderr.split("\n") if re.match(r"^(main|a|b|c)\.[a-z]+ ", l)]
 
 
-def run_history(ctx, builder, hello, modeld, hid, script, fresh_oracle, res):
+def run_history(ctx, builder, hello, modeld, hid, script, fresh_oracle, res, cfg):
     """script: list of (kind, arg). After every step: build through the history's cache, build the oracle, compare."""
     rng = ctx.rng
     root = os.path.join(ctx.scratch, "hist-%s" % hid)
@@ -751,6 +781,10 @@ def run_history(ctx, builder, hello, modeld, hid, script, fresh_oracle, res):
         if p.returncode != 0:
             raise RuntimeError("llgo build failed in history %s step %d (%s):\n%s" % (hid, si, desc, (p.stdout + p.stderr)[-3000:]))
         after = user_archives(xdg)
+        if kind == "initial" and not fresh_oracle:
+            # seed the oracle's cache with the runtime archives this build produced (saves one runtime compile); the
+            # oracle only has to be free of archives of the MODULE's packages, which are dropped before every oracle build
+            shutil.copytree(os.path.join(xdg, "llgo"), os.path.join(oxdg, "llgo"), dirs_exist_ok=True)
         _, err, rc = run_prog(prog)
         got = out_lines(err)
         # the oracle: a clean build of the current inputs (no archive of any package of the module in its cache; in
@@ -814,9 +848,7 @@ def run_history(ctx, builder, hello, modeld, hid, script, fresh_oracle, res):
                         "module_files": {rel: open(os.path.join(mod.root, rel)).read() for rel in mod.files()},
                         "how": "write the files, run the listed edits each followed by the command with a private XDG_CACHE_HOME; compare with the same command under an empty XDG_CACHE_HOME"})
     # the Lean model's buildProg over the same history: hit/miss and fresh/stale per package
-    answers, _, merr = run_lines([modeld], model_lines)
-    if len(answers) != len(model_lines):
-        raise RuntimeError("modeld_c13 died: %s" % merr[-2000:])
+    answers = model_lines_run(modeld, cfg, model_lines)
     for step in steps:
         ans = answers[step.pop("model_line")]
         mpred = {}
@@ -940,13 +972,19 @@ def run(ctx, args):
 
     # ---- tie B-O (1): where the optimisation level enters the manifest — crosscompile.Use puts level.Flag() first
     broken = []
-    use_model, _, _ = run_lines([modeld], ["use %d %s" % (i, ",".join(out[1 + i][3:].split(",")[1:]) or ".") for i in range(6)])
+    use_model = model_lines_run(modeld, (True, True), ["use %d %s" % (i, ",".join(out[1 + i][3:].split(",")[1:]) or ".") for i in range(6)])
     for i in range(6):
         if out[1 + i] != use_model[i]:
             broken.append("crosscompile.Use CCFLAGS for level %d: real %s, model %s" % (i, out[1 + i], use_model[i]))
+    # ---- which variant of the fingerprint code is this tree?  (Model/Cache.lean mirrors both: Cfg)
+    cfg = probe_variant(harness, hello)
+    ctx.log("fingerprint variant of the working tree: contentHash=%s ccflagsEnv=%s (%s)" % (cfg[0], cfg[1],
+            {(True, True): "Cfg.fixed: keyCovers_partial_fixed / cache_sound_fixed apply", (False, False): "Cfg.legacy: keyCovers_partial / cache_sound_partial apply"}
+            .get(cfg, "mixed: key_covers_of_hyp with the corresponding hypotheses")))
     # ---- tie B-O (2): real collectFingerprint vs the model's key, field by field and as a collision relation
     nb, nm = (60, 8) if quick else (1500, 12)
-    cstats, field_mm, coarser, finer, nontrivial, sample = correspondence(ctx, harness, modeld, hello, nb, nm)
+    cstats, field_mm, coarser, finer, nontrivial, sample = correspondence(ctx, harness, modeld, hello, nb, nm, cfg)
+    cstats["variant"] = {"contentHash": cfg[0], "ccflagsEnv": cfg[1]}
     ctx.log("manifest correspondence: %d requests, %d field mismatches, %d pairs; real coarser than model: %d, finer: %d"
             % (cstats["requests"], len(field_mm), cstats["pairs"], len(coarser), len(finer)))
     if field_mm:
@@ -977,14 +1015,14 @@ def run(ctx, args):
             targeted.append(TARGETED[kind])
     if targeted:
         plans.append(("targeted", b_harn, targeted + [("noop", None)], False))
-    nh, ns = (1, 6) if quick else (6, 10)
+    nh, ns = (0, 0) if quick else (6, 10)      # quick: the corpus history `quick` only (about eight llgo builds)
     for i in range(nh):
         plans.append(("llgo-%d" % i, b_llgo, random_script(rng, ns, False), (not quick) and i % 4 == 0))
     for i in range(nh):
         plans.append(("x-%d" % i, b_harn, [("xvar", None)] + random_script(rng, ns - 1, True), False))
     for hid, builder, script, fresh in plans:
         t0 = time.time()
-        run_history(ctx, builder, hello, modeld, hid, script, fresh, res)
+        run_history(ctx, builder, hello, modeld, hid, script, fresh, res, cfg)
         ctx.log("history %s (%s): %d steps in %.0f s; stale classes so far: %s" % (hid, "harness build" if builder.is_harness else "llgo build",
                                                                                  len(script) + 1, time.time() - t0, res["stale"]))
     reproducibility(ctx, b_llgo, res, rounds=2 if quick else 3)
